@@ -15,6 +15,12 @@ Streams (each case is one operation history; after EVERY op the harness records
           Spec_C14.spec_fan_ok) and re-evaluated one by one when a fan disagrees
   odd    malformed histories: out-of-range rollback points, empty / duplicate / all-locked value
          lists, flags no attribute mentions
+  multi  SEVERAL configured packages side by side: 2-3 wrappers (created when first used, as repo
+         lookups are) of one or two shared raw packages, from one or two make_wrapper classes, USE
+         sets equal or differing in a few flags, ops interleaved or one package after the other;
+         plus all two-package histories of length 4 (thorough 5) over {en a, dis a, commit, read} x 2.
+         After every op the USE mask and changes_count of EVERY package are observed
+         (Model_C14.run_multi / Spec_C14.spec_multi_ok; theorems multi_reads_current, multi_isolated)
 (A) each recorded history is compared with Model_C14.run_hist (the REPAIRED wrapper) inside Coq;
 (B) Spec_C14.spec_hist_ok is evaluated inside Coq on the implementation's recorded observations,
     and the same oracle runs directly in Python against `raw.evaluate_depset(set(pkg.use))`.
@@ -139,6 +145,8 @@ class Impl:
         self.atom, self.DepSet, self.FakePkg = atom, DepSet, FakePkg
         # as ConfiguredTree.config_wrappables does
         self.kls = make_wrapper(None, "use", {a: klass.alias_method("evaluate_depset") for a in ATTRS})
+        # a second configured repo's class (stream "multi")
+        self.kls2 = make_wrapper(None, "use", {a: klass.alias_method("evaluate_depset") for a in ATTRS})
         self._parsed = {}
 
     def depset(self, nodes):
@@ -159,6 +167,71 @@ class Impl:
     @staticmethod
     def leaves(ds):
         return [int(str(x).split("/p", 1)[1]) for x in ds]
+
+    def run_multi(self, raws, wr, ops, choose_rb=None):
+        """several configured packages side by side.  raws: depsets per raw package;
+        wr: (raw index, initial use, class index) per wrapper, each wrapper is created (as a repo
+        lookup would) when the first op addressed to it runs; ops: (wrapper index, op).
+        -> (ops run, observations [result, [mask, count of every wrapper]], oracle failures)"""
+        rawobjs = []
+        for depsets in raws:
+            raw = self.FakePkg("dev-util/c14-1")
+            for a, nodes in zip(ATTRS, depsets):
+                object.__setattr__(raw, a, self.depset(nodes))
+            rawobjs.append(raw)
+        ws = [None] * len(wr)
+
+        def state():
+            out = []
+            for i, (ri, use, ki) in enumerate(wr):
+                if ws[i] is None:
+                    out += [mask(use), 0]
+                else:
+                    out += [mask(FLAGS.index(f) for f in set(ws[i].use)), int(ws[i].changes_count())]
+            return out
+
+        obs, bad, done = [], [], []
+        for idx, (wi, o) in enumerate(ops):
+            ri, use, ki = wr[wi]
+            if ws[wi] is None:
+                ws[wi] = (self.kls, self.kls2)[ki](
+                    rawobjs[ri], initial_settings=[FLAGS[i] for i in use],
+                    unchangable_settings=[FLAGS[i] for i in LOCKED])
+            w = ws[wi]
+            before = state()
+            if o[0] == "rb" and o[1] is None:
+                o = ("rb", choose_rb(w.changes_count()))
+            done.append((wi, o))
+            if o[0] == "en":
+                r = impl_call(lambda: w.request_enable("use", *[FLAGS[i] for i in o[1]]), kinds=KINDS)
+            elif o[0] == "dis":
+                r = impl_call(lambda: w.request_disable("use", *[FLAGS[i] for i in o[1]]), kinds=KINDS)
+            elif o[0] == "rb":
+                r = impl_call(lambda: w.rollback(o[1]), kinds=KINDS)
+            elif o[0] == "commit":
+                r = impl_call(w.commit, kinds=KINDS)
+            else:
+                r = impl_call(lambda: self.leaves(getattr(w, ATTRS[o[1]])), kinds=KINDS)
+            if not (r is True or r is False or r is None or isinstance(r, (Err, list))):
+                r = Err("unexpected:" + type(r).__name__)
+            after = state()
+            obs.append([r, after])
+            cur = set(w.use)
+            if o[0] == "read":
+                want = self.leaves(getattr(rawobjs[ri], ATTRS[o[1]]).evaluate_depset(cur))
+                if r != want:
+                    bad.append({"at": idx, "wrapper": wi, "what": "stale read: a configured package's attribute "
+                                "differs from raw.evaluate_depset(its current use) while other configured "
+                                "packages are in use", "attr": ATTRS[o[1]],
+                                "use": sorted(cur), "got": r, "expected": want})
+            elif o[0] in ("en", "dis") and r is False and after[2 * wi] != before[2 * wi]:
+                bad.append({"at": idx, "wrapper": wi, "what": "a refused request changed the USE set",
+                            "before": flags_of(before[2 * wi]), "after": flags_of(after[2 * wi])})
+            for j in range(len(wr)):
+                if j != wi and after[2 * j:2 * j + 2] != before[2 * j:2 * j + 2]:
+                    bad.append({"at": idx, "wrapper": wi, "what": "an operation on one configured package "
+                                "changed the USE set / change count of another", "other": j})
+        return done, obs, bad
 
     def run(self, use, depsets, ops, choose_rb=None):
         """-> (ops actually run, observations, property failures found by the direct oracle)"""
@@ -219,6 +292,36 @@ def op_show(o):
     if o[0] == "commit":
         return "commit()"
     return f"read .{ATTRS[o[1]]}"
+
+
+def multi_term(raw_names, wr, ops):
+    cfgs = clist([f"({ri}, {mask(use)}%Z)" for ri, use, _ in wr], "N * Z")
+    mops = clist([f"({wi}%nat, {op_coq(o)})" for wi, o in ops], "nat * op")
+    return f"(({clist(raw_names, 'list (list node)')}, {cfgs}, {mask(LOCKED)}%Z), {mops})"
+
+
+def mobs_term(obs):
+    return Raw("VL " + clist([f"VL [{res_coq(r)}; VL {clist(['VZ %d' % x for x in flat], 'val')}]"
+                              for r, flat in obs], "val"))
+
+
+def multi_json(raws, wr, ops):
+    return {"multi": True,
+            "raw_packages": [{a: nodes_str(d) for a, d in zip(ATTRS, depsets)} for depsets in raws],
+            "configured_packages": [{"raw_package": ri, "use": [FLAGS[i] for i in use],
+                                     "wrapper_class": ki} for ri, use, ki in wr],
+            "ops": [f"pkg{wi}: {op_show(o)}" for wi, o in ops],
+            "raw": {"raws": [[nodes_json(d) for d in depsets] for depsets in raws],
+                    "wr": [[ri, list(use), ki] for ri, use, ki in wr],
+                    "ops": [[wi, [o[0]] + ([list(o[1])] if o[0] in ("en", "dis") else
+                                           [o[1]] if len(o) > 1 else [])] for wi, o in ops]}}
+
+
+def multi_from_raw(raw):
+    raws = [[nodes_from_json(d) for d in depsets] for depsets in raw["raws"]]
+    wr = [(ri, tuple(use), ki) for ri, use, ki in raw["wr"]]
+    ops = [(wi, ops_from_raw([o])[0]) for wi, o in raw["ops"]]
+    return raws, wr, ops
 
 
 def ops_from_raw(raw_ops):
@@ -285,6 +388,28 @@ CORPUS = [
     ((0,), "enum", [("dis", (0,)), ("dis", (0,)), ("read", 0)]),
 ]
 
+# several configured packages of shared raw packages (round 4): (raw ds names, wrappers, ops)
+MULTI_ALPHABET = [(w, o) for w in (0, 1) for o in (("en", (0,)), ("dis", (0,)), ("commit",), ("read", 0))]
+MULTI_ENUM_WR = [(0, (0, 4), 0), (0, (4,), 0)]
+MULTI_CORPUS = [
+    # two lookups of the same cpv with different USE, both at generation 0
+    (["enum"], [(0, (0, 4), 0), (0, (4,), 0)], [(0, ("read", 0)), (1, ("read", 0))]),
+    # same initial USE, histories diverge, the second reaches the generation the first cached at
+    (["enum"], [(0, (), 0), (0, (), 0)],
+     [(0, ("en", (0,))), (0, ("read", 0)), (1, ("commit",)), (1, ("read", 0))]),
+    # one after the other: the first is used and dropped, the second is looked up later
+    (["enum"], [(0, (0,), 0), (0, (1,), 0)],
+     [(0, ("read", 0)), (0, ("dis", (0,))), (0, ("read", 0)), (0, ("commit",)), (0, ("read", 0)),
+      (1, ("read", 0)), (1, ("en", (0,))), (1, ("read", 0)), (1, ("rb", 0)), (1, ("read", 0))]),
+    # the same raw package configured by two repos (two wrapper classes)
+    (["enum"], [(0, (0,), 0), (0, (), 1)],
+     [(0, ("read", 0)), (1, ("read", 0)), (1, ("en", (1,))), (0, ("dis", (0,))), (0, ("read", 0)), (1, ("read", 0))]),
+    # two raw packages configured by the same repo
+    (["enum", "enum2"], [(0, (0,), 0), (1, (0,), 0)],
+     [(0, ("read", 0)), (1, ("read", 0)), (0, ("dis", (0,))), (1, ("read", 0)), (0, ("read", 0))]),
+]
+ENUM2_DS = [[(0, False, [7]), (0, True, [8]), 9], [5], [6]]
+
 
 def main(chk: Check):
     rng = chk.rng
@@ -306,14 +431,14 @@ def main(chk: Check):
     t1 = time.time()
     impl = Impl()
     # ---- depset pool (shared by the cases through the preamble)
-    pool = {"enum": ENUM_DS}
+    pool = {"enum": ENUM_DS, "enum2": ENUM2_DS}
     for k in range(chk.n(24, 120)):
         ids = itertools.count(10 * k)
         pool[f"ds{k}"] = [gen_nodes(rng, ids, 2, list(range(6))) for _ in ATTRS]
     preamble = PRE0 + "\n" + "\n".join(
         f"Definition {name} : list (list node) := {clist([nodes_coq(d) for d in dss], 'list node')}."
         for name, dss in pool.items())
-    pool_names = [n for n in pool if n != "enum"]
+    pool_names = [n for n in pool if n not in ("enum", "enum2")]
 
     streams = {"hist": [], "enum": [], "odd": []}   # name -> [(use, ds_name, ops, obs)]
     py_bad = []
@@ -377,6 +502,63 @@ def main(chk: Check):
             last_obs.append(obs[-1])
         fans.append((list(pre), pre_obs, last_obs))
 
+    # ---- several configured packages side by side (fresh wrappers of shared raw packages)
+    multi, multi_bad = [], []   # (raw names, wr, ops, obs)
+
+    def drive_multi(raw_names, wr, ops, choose_rb=None):
+        done, obs, bad = impl.run_multi([pool[n] for n in raw_names], wr, ops, choose_rb)
+        multi.append((list(raw_names), list(wr), done, obs))
+        if bad:
+            multi_bad.append((list(raw_names), list(wr), done, bad))
+        # non-trivial: a read by one package of an attribute another package OF THE SAME RAW
+        # PACKAGE read before, while their USE sets differ
+        readers = {}
+        for (wi, o), ob in zip(done, obs):
+            if o[0] == "read":
+                ri = wr[wi][0]
+                if any(wr[j][0] == ri and j != wi and ob[1][2 * j] != ob[1][2 * wi]
+                       for j in readers.get((ri, o[1]), ())):
+                    chk.nontrivial(("multi", tuple(raw_names), tuple(wr), tuple(done)))
+                    break
+                readers.setdefault((ri, o[1]), set()).add(wi)
+
+    for raw_names, wr, ops in MULTI_CORPUS:
+        drive_multi(raw_names, wr, ops)
+    for f in sorted((VERIF / "corpus" / "C14").glob("multi/*.json")):
+        raw = json.loads(f.read_text())
+        raws, wr, ops = multi_from_raw(raw.get("raw", raw))
+        names = []
+        for k, depsets in enumerate(raws):
+            name = f"mcorpus_{f.stem}_{k}".replace("-", "_")
+            pool[name] = depsets
+            preamble += (f"\nDefinition {name} : list (list node) := "
+                         f"{clist([nodes_coq(d) for d in depsets], 'list node')}.")
+            names.append(name)
+        drive_multi(names, wr, ops)
+    for _ in range(chk.n(400, 3000)):
+        nraw = rng.choice((1, 1, 1, 2))
+        raw_names = rng.sample(pool_names, nraw)
+        nw = rng.choice((2, 2, 3))
+        base = [i for i in range(6) if rng.random() < 0.4]
+        wr = []
+        for _k in range(nw):
+            # USE sets of lookups of the same package are equal or differ in a few flags
+            use = set(base)
+            for _j in range(rng.choice((0, 1, 1, 2))):
+                use ^= {rng.randrange(6)}
+            wr.append((rng.randrange(nraw), tuple(sorted(use)), 0 if rng.random() < 0.85 else 1))
+        ops = gen_ops(rng, rng.randint(6, 18))
+        if rng.random() < 0.5:     # side by side
+            mops = [(rng.randrange(nw), o) for o in ops]
+        else:                      # one after the other, attributes not re-read at every step
+            mops = sorted(((rng.randrange(nw), o) for o in ops), key=lambda x: x[0])
+        drive_multi(raw_names, wr, mops, valid_rb)
+    mlen = 5 if chk.thorough else 4
+    for mops in itertools.product(MULTI_ALPHABET, repeat=mlen):
+        if len({w for w, _ in mops}) == 2:      # single-package histories are stream "enum"
+            drive_multi(["enum"], MULTI_ENUM_WR, list(mops))
+    chk.count("multi", len(multi))
+
     timing["implementation"] = round(time.time() - t1, 1)
     t1 = time.time()
     # distribution of ops / outcomes (evidence)
@@ -390,6 +572,10 @@ def main(chk: Check):
                                     "value" if isinstance(r, list) else str(r))
                 dist[key] = dist.get(key, 0) + 1
     chk.cov["op_outcome_histogram"] = dict(sorted(dist.items()))
+    for c in multi[len(MULTI_CORPUS):: max(1, len(multi) // 2)][:2]:
+        chk.sample({"stream": "multi", "history": multi_json([pool[n] for n in c[0]], c[1], c[2]),
+                    "observed": [[("raise " + ob[0].kind) if isinstance(ob[0], Err) else ob[0], ob[1]]
+                                 for ob in c[3]]}, limit=8)
     for name in ("hist", "odd", "enum"):
         cs = streams[name]
         for c in cs[:: max(1, len(cs) // 2)][:2]:
@@ -417,7 +603,13 @@ def main(chk: Check):
         fcases = [(f"({case_term(ENUM_USE, 'enum', pre)}, {lasts})",
                    Raw(f"VL [{obs_term(pre_obs).term}; {obs_term(last_obs).term}]"))
                   for pre, pre_obs, last_obs in fans]
-        with cf.ThreadPoolExecutor(max_workers=2) as ex:
+        mcases = [(multi_term(names, wr, ops), mobs_term(obs)) for names, wr, ops, obs in multi]
+        multi_corr, multi_spec = [], []
+        with cf.ThreadPoolExecutor(max_workers=3) as ex:
+            f3 = ex.submit(chk.coq_eval, "multi", IMPORTS, "multi_input", mcases,
+                           ["mismatches run_multi cases",
+                            "where_ (fun i r => negb (spec_multi_ok i r)) cases"],
+                           shard=1000, preamble=preamble)
             # random, malformed and corpus histories one by one
             f1 = ex.submit(eval_linear, "hist", [(name, c) for name, cs in streams.items()
                                                  for c in (cs[:n_corpus] if name == "enum" else cs)])
@@ -428,6 +620,10 @@ def main(chk: Check):
                            shard=250, preamble=preamble)
             f1.result()
             r = f2.result()
+            r3 = f3.result()
+        if r3 is not None:
+            multi_corr = [multi[i] for i in r3[0]]
+            multi_spec = [multi[i] for i in r3[1]]
         if r is not None and (r[0] or r[1]):
             # pinpoint: re-evaluate the histories of the disagreeing fans one by one
             badfans = sorted(set(r[0]) | set(r[1]))[:40]
@@ -470,6 +666,40 @@ def main(chk: Check):
                                               "repaired model; this tree does not behave like it"})
         if len(reported) >= 6:
             break
+    # several configured packages: shrink the op list, then drop unused wrappers' ops naturally
+    mreported = set()
+    multi_bad.sort(key=lambda b: len(b[2]))
+    for names, wr, ops, bad in multi_bad[:60]:
+        raws = [pool[n] for n in names]
+        small = shrink_list(ops, lambda xs: bool(impl.run_multi(raws, wr, list(xs))[2]), 1)
+        done, obs, bad2 = impl.run_multi(raws, wr, small)
+        key = (bad2[0]["what"], tuple((wi, o[0]) for wi, o in small))
+        if key in mreported:
+            continue
+        mreported.add(key)
+        chk.violation("property", {"what": bad2[0]["what"], "failure": bad2[0],
+                                   "input": multi_json(raws, wr, small),
+                                   "observed": [[ob[0], [flags_of(m) if k % 2 == 0 else m
+                                                         for k, m in enumerate(ob[1])]] for ob in obs],
+                                   "theorem": "multi_reads_current / multi_isolated (Prop_C14): configured "
+                                              "packages share nothing observable in the model"})
+        if len(mreported) >= 4:
+            break
+    if multi_spec and not multi_bad:
+        for names, wr, ops, obs in multi_spec[:3]:
+            chk.violation("property", {"what": "Spec_C14.spec_multi_ok rejects the recorded history of several "
+                                               "configured packages",
+                                       "input": multi_json([pool[n] for n in names], wr, ops),
+                                       "observed": [[ob[0], ob[1]] for ob in obs]})
+    if multi_corr:
+        multi_corr.sort(key=lambda c: len(c[2]))
+        for names, wr, ops, obs in multi_corr[:3]:
+            chk.violation("correspondence",
+                          {"what": "implementation and Model_C14.run_multi disagree on stream 'multi' "
+                                   "(configured packages are independent in the model)",
+                           "input": multi_json([pool[n] for n in names], wr, ops),
+                           "implementation": [[ob[0], ob[1]] for ob in obs]},
+                          no_input=not (multi_bad or multi_spec))
     if spec_bad and not py_bad:
         for name, (use, ds_name, ops, obs) in spec_bad[:3]:
             chk.violation("property", {"what": "Spec_C14.spec_hist_ok rejects the recorded history (a read "
@@ -504,6 +734,24 @@ def replay(chk: Check, data):
         print("no history in this replay file")
         return
     raw = inp["raw"]
+    if inp.get("multi"):
+        raws, wr, ops = multi_from_raw(raw)
+        impl = Impl()
+        done, obs, bad = impl.run_multi(raws, wr, ops)
+        print("implementation:")
+        for (wi, o), ob in zip(done, obs):
+            print("  pkg%d %-40s -> %r  [use mask, changes_count] per pkg = %s" % (wi, op_show(o), ob[0], ob[1]))
+        print("direct oracle :", bad or "ok")
+        if chk.build(["C14/Prop_C14.vo"]):
+            pre = PRE0 + "".join(f"\nDefinition dsr{k} : list (list node) := "
+                                 f"{clist([nodes_coq(d) for d in ds], 'list node')}." for k, ds in enumerate(raws))
+            r = chk.coq_eval("replay", IMPORTS, "multi_input",
+                             [(multi_term([f"dsr{k}" for k in range(len(raws))], wr, done), mobs_term(obs))],
+                             ["mismatches run_multi cases",
+                              "where_ (fun i r => negb (spec_multi_ok i r)) cases"], preamble=pre)
+            if r is not None:
+                print("model agrees:", not r[0], "| spec accepts the recorded history:", not r[1])
+        return
     use, depsets, ops = tuple(raw["use"]), [nodes_from_json(d) for d in raw["depsets"]], ops_from_raw(raw["ops"])
     impl = Impl()
     done, obs, bad = impl.run(use, depsets, ops)
